@@ -272,18 +272,34 @@ func TestRegressDiamondConflicts(t *testing.T) {
 // TestRegressTwoIndexFiles: 1003 files, i.e. two index files at the production 1000 entries per file
 // (the mount always unpacks with the production value); thorough tier only (about 1 s per mode)
 func TestRegressTwoIndexFiles(t *testing.T) {
-	if !hx.Thorough() {
-		t.Skip("thorough tier only")
+	// quick: more entries than any internal batch of the mount's population (513+); thorough: also more than
+	// one index file (1000 entries per file)
+	sizes := []int{600}
+	if hx.Thorough() {
+		sizes = []int{513, 1003, 2100}
 	}
 	L := uint32(4096)
-	c := caseT{Shape: "pinned", Tree: hx.TreeSpec{Leaf: L}}
-	for i := 0; i < 1003; i++ {
-		c.Tree.Files = append(c.Tree.Files, hx.FileSpec{Path: fmt.Sprintf("d%02d/e%d/f%04d", i%37, i%3, i), Content: fixed(L, i%5, uint64(i))})
-	}
-	c.Program = []opT{{Kind: "readdir", Path: "", Bufs: []int{128}, Resume: []resumeT{{At: 17, Buf: 128}}}}
-	for _, m := range []modeT{{Streamed: false}, {Streamed: true, CacheLeaves: 2}} {
-		c.Mode = m
-		out := check(t, c)
-		record(c, out)
+	for _, n := range sizes {
+		c := caseT{Shape: "pinned", Tree: hx.TreeSpec{Leaf: L}}
+		path := func(i int) string { return fmt.Sprintf("d%02d/e%d/f%04d", i%37, i%3, i) }
+		for i := 0; i < n; i++ {
+			c.Tree.Files = append(c.Tree.Files, hx.FileSpec{Path: path(i), Content: fixed(L, i%5, uint64(i))})
+		}
+		c.Program = []opT{{Kind: "readdir", Path: "", Bufs: []int{128}, Resume: []resumeT{{At: 17, Buf: 128}}}}
+		// every entry is reachable by path, early and late ones alike
+		for i := 0; i < n; i++ {
+			if i%41 == 0 || (i >= 508 && i <= 516) || (i >= 998 && i <= 1003) || i == n-1 {
+				c.Program = append(c.Program, opT{Kind: "lookup", Path: path(i)}, opT{Kind: "getattr", Path: path(i)})
+				if i%5 != 0 {
+					c.Program = append(c.Program, opT{Kind: "read", Path: path(i), Off: 0, Len: 16})
+				}
+			}
+		}
+		c.Program = append(c.Program, opT{Kind: "readdir", Path: "d36/e2", Bufs: []int{4096}})
+		for _, m := range []modeT{{Streamed: false}, {Streamed: true, CacheLeaves: 2}} {
+			c.Mode = m
+			out := check(t, c)
+			record(c, out)
+		}
 	}
 }
